@@ -41,6 +41,8 @@ def check(ctx):
         cases.append({"via": "polar_binning", "inner": inner, "outer": outer, "nr": nr, "na": na, "rot": rot, "lazy": lazy})
     for inner, outer, step in itertools.product((0.0, 10.0, 20.0), (40.0, 60.0), (5.0, 10.0)):
         cases.append({"via": "radial_binning", "inner": inner, "outer": outer, "step": step, "lazy": False})
+    for na, nr, rot, lazy in itertools.product((3, 4, 6), (1, 2), (0.0, 0.5, 1.0, -0.3), (False, True)):
+        cases.append({"via": "rotation", "na": na, "nr": nr, "rot": rot, "lazy": lazy})
     ctx.run(cases, "run_case", rule="one case per (bins, sampling, offsets, ensemble, lazy); inside all aligned limit pairs and partitions; "
             "non-trivial = more than one bin")
 
@@ -65,6 +67,53 @@ def make(case):
     if case["lazy"]:
         pm = pm.ensure_lazy()
     return pm, arr
+
+
+def run_rotation(case):
+    """Independent reference for binned measurements: EVERY pixel of a ring of a 15 x 15 pattern carries unit intensity in an ensemble member of its
+    own; after polar_binning with a rotation, integrate(azimuthal_limits = the range the k-th bin claims) must be 1 exactly for the bin
+    whose claimed range contains the pixel's azimuth, and 0 for the others."""
+    from abtem.core.axes import OrdinalAxis
+    from abtem.measurements import DiffractionPatterns
+
+    n, c0, samp = 15, 7, 0.05
+    na, rot = case["na"], case["rot"]
+    width = 2 * np.pi / na
+    pix = []
+    for i in range(n):
+        for j in range(n):
+            rr = np.hypot(i - c0, j - c0)
+            if 2.0 <= rr <= 6.5:
+                phi = np.arctan2(j - c0, i - c0) % (2 * np.pi)
+                d = ((phi - rot) % (2 * np.pi)) / width
+                if min(d - np.floor(d), np.ceil(d) - d) * width > 0.02:  # not on a bin boundary (the property says nothing about ties)
+                    pix.append((i, j, phi))
+    arr = np.zeros((len(pix), n, n), np.float32)
+    for m, (i, j, _) in enumerate(pix):
+        arr[m, i, j] = 1.0
+    dp = DiffractionPatterns(arr, sampling=samp, fftshift=True, ensemble_axes_metadata=[OrdinalAxis(values=tuple(range(len(pix))))], metadata={"energy": 100e3})
+    if case["lazy"]:
+        dp = dp.ensure_lazy()
+    outer = float(dp.angular_coordinates[0][c0 + 7] if hasattr(dp, "angular_coordinates") else 1.0)
+    pm = dp.polar_binning(nbins_radial=case["nr"], nbins_azimuthal=na, inner=0.0, outer=outer, rotation=rot)
+    viol, tr = [], 0
+    off = float(pm.azimuthal_offset)
+    got = []
+    for k in range(na):
+        out = pm.integrate(azimuthal_limits=(off + k * width, off + (k + 1) * width))
+        out = out.compute() if getattr(out, "is_lazy", False) else out
+        got.append(np.asarray(out.array, dtype=np.float64))
+        tr += 1
+    got = np.stack(got, axis=-1)
+    want = np.zeros_like(got)
+    for m, (_, _, phi) in enumerate(pix):
+        want[m, int(np.floor(((phi - off) % (2 * np.pi)) / width))] = 1.0
+    badm = np.where(np.abs(got - want).max(axis=-1) > 1e-6)[0]
+    if len(badm):
+        m = int(badm[0])
+        viol.append({"key": "via-polar_binning/azimuth-of-bins", "msg": "pixel (%d, %d) at azimuth %.3f rad, bins rotated by %.2f (offset %.2f): integrals over the %d claimed azimuthal ranges %r, expected %r; %d of %d pixels wrong (%s)" % (
+            pix[m][0] - c0, pix[m][1] - c0, pix[m][2], rot, off, na, got[m].round(3).tolist(), want[m].tolist(), len(badm), len(pix), case)})
+    return {"viol": viol, "obs": "%d pixels" % len(pix), "nt": True, "tr": tr, "ref": len(pix), "st": len(pix)}
 
 
 def run_via(case):
@@ -112,6 +161,8 @@ def run_via(case):
 
 
 def run_case(case):
+    if case.get("via") == "rotation":
+        return run_rotation(case)
     if case.get("via"):
         return run_via(case)
     viol, tr = [], 0
